@@ -384,49 +384,60 @@ pub fn global_parse_float(
         return Ok(Guarded::unguarded(JsValue::Number(f64::NAN)));
     }
 
-    // Find the longest valid float prefix
-    let mut num_str = String::new();
-    let mut has_dot = false;
-    let mut has_exp = false;
-    let mut chars = s.chars().peekable();
-
-    // Handle sign
-    if matches!(chars.peek(), Some('-') | Some('+'))
-        && let Some(c) = chars.next()
-    {
-        num_str.push(c);
+    // Find the longest prefix that is a StrDecimalLiteral:
+    // [sign] (Infinity | digits [. digits] | . digits) [(e|E) [sign] digits]
+    let bytes = s.as_bytes();
+    let mut pos = 0;
+    if matches!(bytes.first(), Some(b'-') | Some(b'+')) {
+        pos += 1;
     }
-
-    // Parse digits and decimal point
-    while let Some(&c) = chars.peek() {
-        match c {
-            '0'..='9' => {
-                num_str.push(c);
-                chars.next();
-            }
-            '.' if !has_dot && !has_exp => {
-                has_dot = true;
-                num_str.push(c);
-                chars.next();
-            }
-            'e' | 'E' if !has_exp => {
-                has_exp = true;
-                num_str.push(c);
-                chars.next();
-                // Optional sign after exponent
-                if matches!(chars.peek(), Some('-') | Some('+'))
-                    && let Some(sign) = chars.next()
-                {
-                    num_str.push(sign);
-                }
-            }
-            _ => break,
+    if s.get(pos..).is_some_and(|rest| rest.starts_with("Infinity")) {
+        let n = if bytes.first() == Some(&b'-') {
+            f64::NEG_INFINITY
+        } else {
+            f64::INFINITY
+        };
+        return Ok(Guarded::unguarded(JsValue::Number(n)));
+    }
+    let mut mantissa_digits = 0;
+    while bytes.get(pos).is_some_and(|b| b.is_ascii_digit()) {
+        pos += 1;
+        mantissa_digits += 1;
+    }
+    if bytes.get(pos) == Some(&b'.') {
+        let mut p = pos + 1;
+        let mut fraction_digits = 0;
+        while bytes.get(p).is_some_and(|b| b.is_ascii_digit()) {
+            p += 1;
+            fraction_digits += 1;
+        }
+        // a trailing point belongs to the number only if there were digits on one side
+        if mantissa_digits + fraction_digits > 0 {
+            pos = p;
+            mantissa_digits += fraction_digits;
         }
     }
-    match num_str.parse::<f64>() {
-        Ok(n) => Ok(Guarded::unguarded(JsValue::Number(n))),
-        Err(_) => Ok(Guarded::unguarded(JsValue::Number(f64::NAN))),
+    if mantissa_digits == 0 {
+        return Ok(Guarded::unguarded(JsValue::Number(f64::NAN)));
     }
+    // the exponent part counts only when it has at least one digit ("1e" and "1e+" read as 1)
+    if matches!(bytes.get(pos), Some(b'e') | Some(b'E')) {
+        let mut p = pos + 1;
+        if matches!(bytes.get(p), Some(b'-') | Some(b'+')) {
+            p += 1;
+        }
+        if bytes.get(p).is_some_and(|b| b.is_ascii_digit()) {
+            while bytes.get(p).is_some_and(|b| b.is_ascii_digit()) {
+                p += 1;
+            }
+            pos = p;
+        }
+    }
+    let n = s
+        .get(..pos)
+        .and_then(|prefix| prefix.parse::<f64>().ok())
+        .unwrap_or(f64::NAN);
+    Ok(Guarded::unguarded(JsValue::Number(n)))
 }
 
 // Global isNaN - converts argument to number first
